@@ -37,7 +37,7 @@ MANIFEST = dict(
          "return_lists), C06_star_spelled (fan-out). FIRST on a chained selection: C06_chained_first (first returns "
          "firstOf(map single sels) of the per-parent selections sels: return_lists=False replaces every one-record parent "
          "selection by the bare value, then a single parent by its result, then first's own last step unwraps a remaining "
-         "one-element list) with C06_chained_first_cases (nothing -> default; one parent/one record -> that value, three levels "
+         "one-element list) with C06_chained_first_cases (nothing -> the default as it is, also when it is a one-element list: fix C04-f; one parent/one record -> that value, three levels "
          "unwrapped; one parent/several records -> their list; several parents -> the list of per-parent results, one-record "
          "parents as bare values). An inner `items` that is ONE dict record instead of a list of records (the library's hidden "
          "list): C06_chained_hidden / C06_chained_spellings_string (hypothesis InnerRecs: list of dict records or one dict record) - "
@@ -273,6 +273,26 @@ def in_known(c, detail=None):
     return classify(c)
 
 
+def miss_defaults():
+    """defaults a caller may pass, fresh objects on every call: on a miss get() and first() return the default ITSELF
+    (fix C04-f: first() unwrapped a default that was a one-element list / tuple)"""
+    return ["DFLT", None, ["D"], ("D",), [None], [[]], {}, 0, "", [1, 2]]
+
+
+# defaults of the correspondence stream (the value model has no tuples: lists stand for them)
+B_DEFAULTS = [None, "D", None, "D", ["D"], [None], [[]], {}, "", 0]
+
+
+def miss_identity(o, xp):
+    """nothing is selected: get and first hand the caller's default back as it is, whatever value it is"""
+    for d in miss_defaults():
+        for how, fn in (("get", lambda: o.get(xp, d)), ("first", lambda: o.first(xp, d))):
+            r = core.call(fn)
+            if r[0] != "ok" or r[1] is not d:
+                return {"want": "miss: the default itself", "default": repr(d), how + "_returned": repr(r)[:200]}
+    return None
+
+
 def check_select(c):
     o = X.convert(c["tree"], c["mode"])
     recs = X.get_at(c["tree"], c["pos"])
@@ -290,7 +310,7 @@ def check_select(c):
         fr = core.call(lambda: o.first(xp, "DFLT"))
         if fr != ("ok", "DFLT"):
             return {"want": "miss", "first_returned": repr(fr)[:200]}
-        return None
+        return miss_identity(o, xp)
     got = g[1]
     if not isinstance(got, list) or list(got) != want:
         return {"want": want, "get_returned": repr(got)[:200]}
@@ -366,9 +386,11 @@ def chained_oracle(recs, c, return_lists=True):
 
 
 def first_of(vals, dflt):
-    """Lean firstOf: no value -> the default, one -> itself, several -> the list; then first()'s own last step unwraps a
-    one-element list"""
-    res = dflt if not vals else (vals[0] if len(vals) == 1 else vals)
+    """Lean firstOf: no value -> the default AS IT IS (fix C04-f), one -> itself, unwrapped by first()'s own last step when it
+    is a one-element list, several -> the list"""
+    if not vals:
+        return dflt
+    res = vals[0] if len(vals) == 1 else vals
     if isinstance(res, (list, tuple)) and len(res) == 1:
         res = res[0]
     return res
@@ -392,7 +414,7 @@ def check_chained(c):
             return {"want": "miss", "got": repr(g[1])[:200]}
         if it[0] == "ok":
             return {"want": "miss", "item_access_returned": repr(it[1])[:200]}
-        return None
+        return miss_identity(o, c["xp"])
     got = g[1]
     if not isinstance(got, list) or plain(got) != want:
         return {"want": want, "got": repr(got)[:200]}
@@ -552,7 +574,7 @@ def run(ctx):
         "non_canonical_spelling": sum(1 for c in chained if c.get("spelled")),
     }
     rng = ctx.rng("kinds")
-    lk = [dict(xp=c["xp"], tree=c["tree"], mode=c["mode"], kind=rng.choice("gif"), d=rng.choice([None, "D"])) for c in cases + chained]
+    lk = [dict(xp=c["xp"], tree=c["tree"], mode=c["mode"], kind=rng.choice("gif"), d=rng.choice(B_DEFAULTS)) for c in cases + chained]
 
     def impl_get(c):
         o = X.convert(c["tree"], c["mode"])
